@@ -712,6 +712,9 @@ func (w *worker) check(j *job) {
 			outcome = "out:values"
 		}
 		rep.Count(outcome)
+		if ref == "exhausted" && os.Getenv("HFCF_DEBUG") != "" {
+			fmt.Fprintln(os.Stderr, "EXHAUSTED", av, text)
+		}
 		if j.verbose {
 			fmt.Printf("args %s: %s\n", av, ans)
 		}
